@@ -409,6 +409,7 @@ def merge_stats(dst, src):
 def correspondence_step(prop, tier, seed, wdir, log):
     collect = new_collect()
     for si, stream in enumerate(prop.streams):
+        runs = []
         # corpus first
         cdir = os.path.join(CORPUS, stream.corpus)
         if os.path.isdir(cdir):
@@ -434,6 +435,9 @@ def correspondence_step(prop, tier, seed, wdir, log):
                 merge_stats(collect["gen_stats"], {f"{stream.component}.{k}": v for k, v in gst.items()})
                 merge_stats(collect["run_stats"], {f"{stream.component}.{k}": v for k, v in rst.items()})
                 examine(prop, stream, annot, impl, model, f"gen seed={sd} flavour={stream.flavour}", collect)
+                runs.append((annot[0], annot[1], impl))
+        if hasattr(prop, "extra"):
+            prop.extra(stream, runs, wdir, tier, collect)
     return collect
 
 
